@@ -64,13 +64,13 @@ def chunked (seed max : Nat) (s : Bytes) : List Bytes :=
   if max = 0 then [s] else go (s.length + 1) seed s []
 
 def loadOutcome (alloc : Nat → Nat) (rules : Bool) (s : Bytes) : Except Err Arena :=
-  if rules then loadRules alloc s else load alloc s
+  if rules then loadRules loaderCfg alloc s else load loaderCfg alloc s
 
 /-- number of 8-byte read requests of the relocation loop: one per entry processed, plus the last one
     (short read, or the entry that is rejected) -/
 def relocReads (a : Arena) : Bytes → Nat
   | b0 :: b1 :: b2 :: b3 :: b4 :: b5 :: b6 :: b7 :: rest =>
-    match applyRelocs a [b0, b1, b2, b3, b4, b5, b6, b7] with
+    match applyRelocs loaderCfg a [b0, b1, b2, b3, b4, b5, b6, b7] with
     | .ok a' => 1 + relocReads a' rest
     | .error _ => 1
   | _ => 1
@@ -99,6 +99,7 @@ def readTrace (s : Bytes) : String :=
       match parseTable n s1 with
       | .error _ => t
       | .ok (sizes, s2) =>
+        if loaderCfg.checksOffsets && !offsetsOk s1 0 (headerSize + tableEntrySize * n) sizes then t else
         let rec bodiesT (sizes : List Nat) (s : Bytes) (acc : List String) : List String × Bool :=
           match sizes with
           | [] => (acc, true)
@@ -112,7 +113,8 @@ def readTrace (s : Bytes) : String :=
         match readBodies addr 0 sizes s2 with
         | .error _ => t2
         | .ok (bufs, s3) =>
-          t2 ++ List.replicate (relocReads { bufs := bufs, relocs := [], init := loadInitialSize } s3) s!"{relocEntrySize}x1"
+          t2 ++ List.replicate (relocReads { bufs := bufs, relocs := [], init := loadInitialSize } s3)
+            (if loaderReadsRelocBytes then s!"1x{relocEntrySize}" else s!"{relocEntrySize}x1")
   ",".intercalate (rleReqs reqs)
 
 /-- entries of the relocation section of an image (after header, table and bodies), if it parses that far -/
@@ -123,6 +125,7 @@ def relocEntries (s : Bytes) : List Ref :=
     match parseTable n s1 with
     | .error _ => []
     | .ok (sizes, s2) =>
+      if loaderCfg.checksOffsets && !offsetsOk s1 0 (headerSize + tableEntrySize * n) sizes then [] else
       match readBodies addr 0 sizes s2 with
       | .error _ => []
       | .ok (_, s3) =>
@@ -215,8 +218,8 @@ def stepOp (st : St) (tok : String) : St × String :=
     | some s =>
       if addrDependent s then (st, "L=ADDRDEP") else
       let alloc := fun i => addr (k + 1000 + i)
-      let r := load alloc s
-      let via := loadVia alloc (chunked (seed.toNat?.getD 0) (max.toNat?.getD 0) s)
+      let r := load loaderCfg alloc s
+      let via := loadVia loaderCfg alloc (chunked (seed.toNat?.getD 0) (max.toNat?.getD 0) s)
       let agree := match r, via with
         | .ok x, .ok y => x == y
         | .error e, .error f => e == f
@@ -267,7 +270,7 @@ def handleImg (id : String) (kvs : List String) : String :=
     let rules := (get "rules").getD "1" == "1"
     let ref := outcomeOn rules img
     let extra :=
-      match load addr img with
+      match load loaderCfg addr img with
       | .ok a => s!" RELOCS={a.relocs.length} RESAVE={if save a == img then "same" else "diff"} T={readTrace img}"
       | .error _ => ""
     let outs := (muts.splitOn ",").map fun m =>
